@@ -82,6 +82,8 @@ type Bcast[T any] struct {
 	sum   func(T) F
 	Items []T
 	Fail  int
+	// After, when set, runs after a payload was recorded (e.g. to log an observation per produced block).
+	After func()
 }
 
 func (b *Bcast[T]) WriteToStoreAndBroadcast(ctx context.Context, payload T) error {
@@ -98,6 +100,9 @@ func (b *Bcast[T]) WriteToStoreAndBroadcast(ctx context.Context, payload T) erro
 	rec["kind"] = b.kind
 	rec["ok"] = !fail
 	b.tr.Emit("Bcast", rec)
+	if !fail && b.After != nil {
+		b.After()
+	}
 	if fail {
 		return errors.New("bcast: scripted failure")
 	}
